@@ -469,7 +469,20 @@ def probe_findings(c, which, driver):
                             "and it sees %s available of %d" % (t["count"], t["files"], t["files_after_other_process_recount"],
                                                                 t["available_in_other"], t["total"]),
                             dict(scenario=sc, probe=name, observed=t))
+        t = r.get("newline_in_job_path", {})
+        if "files" in t and (not t["files_after_other_process_recount"] or t["available_in_other"] >= t["total"]):
+            c.violation("C08:token-file-unreadable:newline-in-job-path",
+                        "a job whose path contains a newline holds 1: another process reads its token file as three lines, "
+                        "takes it for unwritten and removes it (files after its recount: %s, it sees %d of %d available)"
+                        % (t["files_after_other_process_recount"], t["available_in_other"], t["total"]),
+                        dict(scenario=sc, probe="newline_in_job_path", observed=t))
     else:
+        t = r.get("directory_named_token", {})
+        if t.get("handler_raised"):
+            c.violation("C09:observer-dies:directory-named-token",
+                        "a token directory whose name ends in .token: on_modified raised %s on the directory event, "
+                        "the observer thread ends" % t["handler_raised"],
+                        dict(scenario=sc, probe="directory_named_token", observed=t))
         t = r.get("token_info_truncated", {})
         if t.get("handler_raised"):
             c.violation("C09:observer-dies:unreadable-token-info",
